@@ -8,7 +8,8 @@ deterministic, plain asyncio API):
   during     control: the thread of a waiting (non-abandon) call calls back while the loop runs      -> the value
   after_end  the thread of an ABANDONED call (abandon_on_cancel=True, caller timed out and gone) calls back after
              run_until_complete() has returned (the loop's last iteration is over) but before loop.close()
-             -> RunFinishedError would be right; F51: the thread waits for ever ("stuck")
+             -> RunFinishedError would be right; F51: the thread waits for ever ("stuck").  "stuck" is only F51 if the
+                worker demonstrably reached the call-back (`reached_call`): a worker stuck BEFORE it is something else
   after_close control: ... calls back after loop.close()                                             -> RunFinishedError
 """
 
@@ -84,13 +85,16 @@ def phase(kind: str, uv: bool, when: str) -> dict:
             res["abandoned"] = bool(abandoned["scope_cancelled"]) and started.is_set()
             if when == "after_end":
                 gate.set()                       # the abandoned thread now calls back into the loop
-                about_to_call.wait(5)
+                res["reached_call"] = about_to_call.wait(5)   # the worker really got as far as the call-back
                 time.sleep(0.2)                  # the hand-over (call_soon_threadsafe) has landed in a loop that is over
     finally:
         res["closed_before_call"] = when == "after_close"
         loop.close()
     if when == "after_close":
         gate.set()
+        res["reached_call"] = about_to_call.wait(5)
+    if when == "during":
+        res["reached_call"] = about_to_call.is_set()
     if finished.wait(1.5):
         res["outcome"] = outcome[0]
     else:
